@@ -6,6 +6,7 @@ package ua
 
 import (
 	"fmt"
+	"io"
 	"math"
 	"reflect"
 	"time"
@@ -143,6 +144,13 @@ func decodeSlice(b []byte, val reflect.Value, name string) (int, error) {
 		return buf.Pos(), buf.Error()
 	}
 
+	// every element takes at least one byte (unless it is a struct without
+	// fields), so a length which exceeds the remaining bytes is bogus. Reject
+	// it before allocating memory for it.
+	if int(n) > buf.Len() && !isEmptyStruct(elemType) {
+		return buf.Pos(), io.ErrUnexpectedEOF
+	}
+
 	pos := buf.Pos()
 	// a is a slice of []*Foo
 	a := reflect.MakeSlice(val.Type(), int(n), int(n))
@@ -164,6 +172,15 @@ func decodeSlice(b []byte, val reflect.Value, name string) (int, error) {
 	val.Set(a)
 
 	return pos, nil
+}
+
+// isEmptyStruct returns true if t is a struct or a pointer
+// to a struct without fields which is encoded as zero bytes.
+func isEmptyStruct(t reflect.Type) bool {
+	if t.Kind() == reflect.Ptr {
+		t = t.Elem()
+	}
+	return t.Kind() == reflect.Struct && t.NumField() == 0
 }
 
 func decodeArray(b []byte, val reflect.Value, name string) (int, error) {
